@@ -48,6 +48,21 @@ func reverseZSetMembers(mems []*ZSetMember) []*ZSetMember {
 	return mems
 }
 
+// limitZSetMembers returns at most count members starting at offset (LIMIT offset count); a negative count means no limit.
+func limitZSetMembers(mems []*ZSetMember, offset int, count int) []*ZSetMember {
+	if offset < 0 {
+		offset = 0
+	}
+	if len(mems) < offset {
+		offset = len(mems)
+	}
+	end := len(mems)
+	if 0 <= count && count < end-offset {
+		end = offset + count
+	}
+	return mems[offset:end]
+}
+
 func NewZSetMember(score float64, data string) *ZSetMember {
 	return &ZSetMember{
 		Score:  score,
@@ -92,20 +107,12 @@ func (zset *ZSet) Range(start int, stop int, opt ZRangeOption) []*ZSetMember {
 		mems = append(mems, zset.members[n])
 	}
 
-	offset := opt.Offset
-	if offset < 0 {
-		offset = 0
-	}
-	count := opt.Count
-	if count < 0 {
-		count = len(mems)
-	}
-
+	mems = limitZSetMembers(mems, opt.Offset, opt.Count)
 	if !opt.REV {
-		return mems[offset:count]
+		return mems
 	}
 
-	return reverseZSetMembers(mems[offset:count])
+	return reverseZSetMembers(mems)
 }
 
 func (zset *ZSet) RangeByScore(min float64, max float64, opt ZRangeOption) []*ZSetMember {
@@ -120,20 +127,12 @@ func (zset *ZSet) RangeByScore(min float64, max float64, opt ZRangeOption) []*ZS
 		mems = append(mems, mem)
 	}
 
-	offset := opt.Offset
-	if offset < 0 {
-		offset = 0
-	}
-	count := opt.Count
-	if count < 0 {
-		count = len(mems)
-	}
-
+	mems = limitZSetMembers(mems, opt.Offset, opt.Count)
 	if !opt.REV {
-		return mems[offset:count]
+		return mems
 	}
 
-	return reverseZSetMembers(mems[offset:count])
+	return reverseZSetMembers(mems)
 }
 
 func (zset *ZSet) Rem(members []string) int {
